@@ -19,6 +19,8 @@ pub enum CovKind {
     HashLock(Vec<u8>),
     /// true iff the previous block's height >= h
     TimeLock(u64),
+    /// true iff the previous block's height < h (an expiry: goes from true to false as the chain grows)
+    Expiry(u64),
     /// true iff the coin's own value >= v (reads the parent value slot)
     ValueBound(u128),
     /// true iff parent denom is MEL ("m")
@@ -63,6 +65,7 @@ pub fn cov_bytes(kind: &CovKind, keys: &[(Ed25519PK, Ed25519SK)]) -> Vec<u8> {
             // Lt pops x=top, y=second, pushes x<y.  push h, then height on top: height < h
             Covenant::from_ops(&[i(*h), i(2), LoadImm(10), VRef, Lt, Not, i(1), And]).to_bytes().to_vec()
         }
+        CovKind::Expiry(h) => Covenant::from_ops(&[i(*h), i(2), LoadImm(10), VRef, Lt]).to_bytes().to_vec(),
         CovKind::ValueBound(v) => {
             // value < v ? 0 : 1
             Covenant::from_ops(&[PushI(U256::from(*v)), LoadImm(5), Lt, Bez(2), i(0), Jmp(1), i(1)]).to_bytes().to_vec()
